@@ -185,6 +185,66 @@ fn sequences(sm: &SeedMsg, rng: &mut Rng, n: usize, prev: &[u8]) -> Vec<Step> {
     out
 }
 
+/// The fault classes also hold for messages longer than the CTAPHID limit of 7609 bytes (the property
+/// states no size bound): seeds whose one unbounded member is huge, then the usual faults.
+fn oversize_cases(rng: &mut Rng) -> Vec<Step> {
+    let mut steps = Vec::new();
+    // (command, key of an unbounded member, is it text?)
+    let targets: [(u8, i64, bool); 5] = [(0x02, 1, true), (0x06, 5, false), (0x0C, 2, false), (0x0A, 4, false), (0x01, 8, false)];
+    for (cmd, key, is_text) in targets {
+        let schema = schema::schema_for(cmd).unwrap();
+        for size in [7700usize, 9000] {
+            let mut root = schema::gen_map(&schema, rng, GenMode::Max);
+            let big = if is_text { V::T(schema::utf8_text(rng, size)) } else { V::B(rng.bytes(size)) };
+            if let V::M(m) = &mut root {
+                match m.iter_mut().find(|(k, _)| *k == cbor::int(key)) {
+                    Some(e) => e.1 = big,
+                    None => {
+                        m.push((cbor::int(key), big));
+                        cbor::sort_canonical(m);
+                    }
+                }
+            }
+            steps.push(seed_step(cmd, &root));
+            let good = {
+                let mut d = vec![cmd];
+                cbor::enc_into(&mut d, &root);
+                d
+            };
+            let site = format!("oversize message of {} bytes", good.len());
+            // removal of each required top-level member
+            for s in schema::walk(&schema, &root) {
+                if let (true, Some((parent, idx))) = (s.required, &s.parent) {
+                    if parent.is_empty() {
+                        let r = replace(&root, parent, |old| match old {
+                            V::M(mut m) => {
+                                m.remove(*idx);
+                                V::M(m)
+                            }
+                            o => o,
+                        })
+                        .unwrap();
+                        let mut d = vec![cmd];
+                        cbor::enc_into(&mut d, &r);
+                        steps.push(Step::Deliver { delivered: d, expect: DeliverExpect::Fault(Expect::MustReject(faults::ST_MISSING_PARAMETER)), class: "remove_required".into(), site: format!("{} ({})", s.name, site), desc: format!("remove required member {} of an {}", s.name, site) });
+                    }
+                }
+            }
+            for k in [1usize, 12, good.len() / 2, 7609, 7610, good.len() - 1] {
+                if k < good.len() {
+                    steps.push(Step::Deliver { delivered: good[..k].to_vec(), expect: DeliverExpect::Fault(Expect::MustReject(faults::ST_INVALID_CBOR)), class: "truncate".into(), site: site.clone(), desc: format!("truncate({}) of an {}", k, site) });
+                }
+            }
+            for bad_cmd in [0x03u8, 0x0D, 0x40, 0xff] {
+                let mut d = good.clone();
+                d[0] = bad_cmd;
+                steps.push(Step::Deliver { delivered: d, expect: DeliverExpect::Fault(Expect::MustReject(faults::ST_INVALID_COMMAND)), class: "command_byte".into(), site: site.clone(), desc: format!("command byte 0x{:02x} in front of an {}", bad_cmd, site) });
+            }
+        }
+    }
+    steps
+}
+
 pub fn gen(seed: u64, run: u64, tier: &str) -> Vec<Step> {
     let p = plan(tier);
     if run >= p.seed_runs {
@@ -209,7 +269,9 @@ pub fn gen(seed: u64, run: u64, tier: &str) -> Vec<Step> {
         // command-byte table with four payload kinds per byte
         let mc = seed_for_run(seed, 1).unwrap();
         let valid = enc(&mc.root);
-        return faults::command_byte_cases(&valid, &mut rng).into_iter().map(case_step).collect();
+        let mut steps: Vec<Step> = faults::command_byte_cases(&valid, &mut rng).into_iter().map(case_step).collect();
+        steps.extend(oversize_cases(&mut rng));
+        return steps;
     }
     let sm = seed_for_run(seed, run).unwrap();
     let mut steps = vec![seed_step(sm.cmd, &sm.root)];
